@@ -96,7 +96,7 @@ def c02(tier, seed):
     combos += [("u", "t1", "n2"), ("t2", "t2", "u"), ("n2", "n2", "n2"), ("u", "u", "u"), ("t1", "t1", "t1"), ("n2", "u", "t2"),
                ("t1", "n2", "t2"), ("t2", "u", "n2"), ("n2", "t1", "u"), ("u", "t2", "t1"), ("t1", "u", "u"), ("n3", "t3", "u")]
     if tier != "quick":
-        combos += [tuple(rnd.choice(list(kinds)) for _ in range(rnd.choice((3, 4, 5)))) for _ in range(120)]
+        combos += [tuple(rnd.choice(list(kinds)) for _ in range(rnd.choice((3, 4, 5)))) for _ in range(300)]
     for ci, combo in enumerate(combos):
         form += 1
         with_eq = form % 3 == 0
@@ -257,7 +257,7 @@ def c03(tier, seed):
     combos += [("u", "t1", "n2"), ("t2", "t2", "u"), ("n2", "n2", "n2"), ("u", "u", "u"), ("t1", "t1", "t1"), ("n2", "u", "t2"),
                ("t1", "n2", "t2"), ("t2", "u", "n2"), ("n2", "t1", "u"), ("u", "t2", "t1"), ("t1", "u", "u"), ("n3", "t3", "u")]
     if tier != "quick":
-        combos += [tuple(rnd.choice(list(kinds)) for _ in range(rnd.choice((3, 4, 5)))) for _ in range(100)]
+        combos += [tuple(rnd.choice(list(kinds)) for _ in range(rnd.choice((3, 4, 5)))) for _ in range(250)]
     for ci, combo in enumerate(combos):
         form += 1
         md = "both" if form % 2 == 0 else "po"
@@ -354,7 +354,7 @@ def c05(tier, seed):
                ("t1", "n2", "t2"), ("t2", "u", "n2"), ("n2", "t1", "u"), ("u", "t2", "t1"), ("t1", "u", "u"), ("n3", "t3", "u"),
                ("t1", "t1", "t1", "t1"), ("u", "u", "t1", "u", "n2")]
     if tier != "quick":
-        combos += [tuple(rnd.choice(list(kinds)) for _ in range(rnd.choice((3, 4, 5, 6)))) for _ in range(100)]
+        combos += [tuple(rnd.choice(list(kinds)) for _ in range(rnd.choice((3, 4, 5, 6)))) for _ in range(250)]
     for ci, combo in enumerate(combos):
         form += 1
         variants, pos = [], 0
@@ -450,7 +450,7 @@ def c07(tier, seed):
     combos += [("u", "t1", "n2"), ("t2", "t2", "u"), ("n2", "n2", "n2"), ("u", "u", "u"), ("t1", "t1", "t1"), ("n2", "u", "t2"),
                ("t1", "n2", "t2"), ("t2", "u", "n2"), ("n2", "t1", "u"), ("u", "t2", "t1"), ("n3", "t3", "u"), ("t1", "t1", "t1", "t1")]
     if tier != "quick":
-        combos += [tuple(rnd.choice(list(kinds)) for _ in range(rnd.choice((3, 4, 5)))) for _ in range(80)]
+        combos += [tuple(rnd.choice(list(kinds)) for _ in range(rnd.choice((3, 4, 5)))) for _ in range(200)]
     for ci, combo in enumerate(combos):
         for copy in (False, True):
             form += 1
@@ -706,7 +706,7 @@ def c09(tier, seed):
     shapes = [("tuple", 1), ("named", 1), ("tuple", 2), ("named", 2), ("tuple", 3), ("named", 3)]
     combos = [(a,) for a in range(6)] + [(a, b) for a in range(6) for b in range(6) if (a + b) % 2 == 1][:12] + [(0, 3, 4), (2, 2, 2), (5, 1, 2), (3, 0, 5)]
     if tier != "quick":
-        combos += [tuple(rnd.randrange(6) for _ in range(rnd.choice((2, 3, 4)))) for _ in range(60)]
+        combos += [tuple(rnd.randrange(6) for _ in range(rnd.choice((2, 3, 4)))) for _ in range(180)]
     for ci, combo in enumerate(combos):
         for with_mut in (False, True):
             form += 1
@@ -829,7 +829,7 @@ def c10(tier, seed):
     vshapes = [("tuple", ["u8"]), ("named", ["u8"]), ("tuple", ["u8", "u8"]), ("named", ["u16", "u8"]), ("tuple", ["u8", "u16", "u8"]), ("named", ["u8", "u8", "u8"])]
     combos = [(a,) for a in range(6)] + [(a, b) for a in range(6) for b in range(6) if (a * 7 + b) % 3 == 0] + [(0, 3, 4), (2, 2, 2), (5, 1, 2), (3, 0, 5), (4, 4, 1, 0)]
     if tier != "quick":
-        combos += [tuple(rnd.randrange(6) for _ in range(rnd.choice((2, 3, 4)))) for _ in range(60)]
+        combos += [tuple(rnd.randrange(6) for _ in range(rnd.choice((2, 3, 4)))) for _ in range(180)]
     for ci, combo in enumerate(combos):
         for tgts in (["u16"], ["u16", "u32"]):
             form += 1
@@ -1100,7 +1100,7 @@ def c06(tier, seed):
     tnames = [("default", "enum name off"), (True, "enum name on"), ("Ren", "enum renamed")]
     combos = [(0,), (1,), (2,), (0, 1, 2), (3, 4, 0), (2, 2), (1, 3, 5, 0), (5, 0, 1), (0, 0, 0), (4, 2, 3, 1)]
     if tier != "quick":
-        combos += [tuple(rnd.randrange(6) for _ in range(rnd.choice((2, 3, 4, 5)))) for _ in range(60)]
+        combos += [tuple(rnd.randrange(6) for _ in range(rnd.choice((2, 3, 4, 5)))) for _ in range(180)]
     for ci, combo in enumerate(combos):
         for tn, _ in tnames:
             for vmode in range(3):
@@ -1353,7 +1353,7 @@ def c15(tier, seed):
     c = Counter()
     out = []
     ALL = ["Debug", "PartialEq", "Eq", "PartialOrd", "Ord", "Hash", "Clone", "Default", "Into(u16)"]
-    nprog = 24 if tier == "quick" else 120
+    nprog = 24 if tier == "quick" else 360
     for pi in range(nprog):
         kind = "struct" if pi % 3 else "enum"
         # which other traits are present: all / random subsets / reordered
